@@ -6,25 +6,22 @@
 (* wraps the tensors in the response envelope, feeds the real library, and *)
 (* compares each output.                                                   *)
 (***************************************************************************)
-EXTENDS Slice, Json
+EXTENDS Slice, View, Json
 
 CONSTANTS
   Scn,       \* scenario name (string), echoed in every line
   Family,    \* which outputs to emit: "c01" | "c02" | "c03"
   MinBase    \* mask threshold used for min_base_size_mask
 
-RE == BaseEls(DimR)
-CE == IF ND >= 2 THEN BaseEls(DimC) ELSE << >>
-
-\* payload positions of the displayed elements; the replayer maps them to labels
-ElPos(e) == IF e.item # 0 THEN e.item ELSE CHOOSE x \in e.pos : TRUE
-Positions(E) == Exact([i \in 1..Len(E) |-> ElPos(E[i])])
+\* display order as references (n > 0: payload position, n < 0: subtotal); the
+\* replayer maps them to the labels the scenario gave those elements
+Positions(ord) == Exact(ord)
 
 C01_2D(tk) ==
   [ counts            |-> Num2(CountM(tk, RE, CE, WS)),
     unweighted_counts |-> Num2(CountM(tk, RE, CE, "n")),
-    row_pos           |-> Positions(RE),
-    column_pos        |-> Positions(CE) ]
+    row_pos           |-> Positions(RowOrder),
+    column_pos        |-> Positions(ColOrder) ]
 C01_2D_Y(tk) ==
   [ means   |-> Num2(YStatM("mean", tk, RE, CE)),
     sums    |-> Num2(YStatM("sum", tk, RE, CE)),
@@ -33,7 +30,7 @@ C01_2D_Y(tk) ==
 C01_1D(tk) ==
   [ counts            |-> Num1(SCountV(tk, RE, WS)),
     unweighted_counts |-> Num1(SCountV(tk, RE, "n")),
-    row_pos           |-> Positions(RE) ]
+    row_pos           |-> Positions(RowOrder) ]
 C01_1D_Y(tk) ==
   [ means   |-> Num1(SYStatV("mean", tk, RE)),
     sums    |-> Num1(SYStatV("sum", tk, RE)),
@@ -78,6 +75,28 @@ C03_1D(tk) ==
   [ table_proportions  |-> Num1(SPropV(tk, RE)),
     table_percentages  |-> Num1([i \in 1..Len(RE) |-> Mul(R(100), SPropV(tk, RE)[i])]) ]
 
+\* display positions (0-based) of inserted subtotals and of differences
+IdxWhere(E, P(_)) == Exact(SelectSeq([i \in 1..Len(E) |-> i - 1], LAMBDA i : P(E[i + 1])))
+
+C04_2D(tk) ==
+  C01_2D(tk) @@ C03_2D(tk) @@
+  [ row_weighted_bases      |-> Num2(RowBaseM(tk, RE, CE, WS)),
+    row_unweighted_bases    |-> Num2(RowBaseM(tk, RE, CE, "n")),
+    column_weighted_bases   |-> Num2(ColBaseM(tk, RE, CE, WS)),
+    column_unweighted_bases |-> Num2(ColBaseM(tk, RE, CE, "n")),
+    table_weighted_bases    |-> Num2(TableBaseM(tk, RE, CE, WS)),
+    table_unweighted_bases  |-> Num2(TableBaseM(tk, RE, CE, "n")),
+    inserted_row_idxs       |-> IdxWhere(RE, IsIns),
+    inserted_column_idxs    |-> IdxWhere(CE, IsIns),
+    diff_row_idxs           |-> IdxWhere(RE, IsDiff),
+    diff_column_idxs        |-> IdxWhere(CE, IsDiff) ]
+C04_1D(tk) ==
+  C01_1D(tk) @@ C03_1D(tk) @@
+  [ weighted_bases     |-> Num1(SBaseV(tk, RE, WS)),
+    unweighted_bases   |-> Num1(SBaseV(tk, RE, "n")),
+    inserted_row_idxs  |-> IdxWhere(RE, IsIns),
+    diff_row_idxs      |-> IdxWhere(RE, IsDiff) ]
+
 Part(tk) ==
   CASE Family = "c01" /\ ND = 1 -> IF HasY THEN C01_1D(tk) @@ C01_1D_Y(tk) ELSE C01_1D(tk)
     [] Family = "c01" /\ ND > 1 -> IF HasY THEN C01_2D(tk) @@ C01_2D_Y(tk) ELSE C01_2D(tk)
@@ -85,12 +104,24 @@ Part(tk) ==
     [] Family = "c02" /\ ND > 1 -> C02_2D(tk)
     [] Family = "c03" /\ ND = 1 -> C03_1D(tk)
     [] Family = "c03" /\ ND > 1 -> C03_2D(tk)
+    [] Family = "c04" /\ ND = 1 -> IF HasY THEN C04_1D(tk) @@ C01_1D_Y(tk) ELSE C04_1D(tk)
+    [] Family = "c04" /\ ND > 1 -> IF HasY THEN C04_2D(tk) @@ C01_2D_Y(tk) ELSE C04_2D(tk)
+
+\* layout of the partition, for the harness' mismatch signatures and label mapping
+Aux ==
+  [ rows  |-> RowOrder, cols |-> ColOrder,
+    rdiff |-> [i \in 1..Len(RE) |-> IsDiff(RE[i])],
+    cdiff |-> [j \in 1..Len(CE) |-> IsDiff(CE[j])],
+    rsubs |-> LiveIdx(DimR, InsSource(RowDC)),
+    csubs |-> IF ND >= 2 THEN LiveIdx(DimC, InsSource(ColDC)) ELSE << >> ]
 
 Out ==
   [ scn   |-> Scn,
     nresp |-> NResp,
+    ci    |-> ci,
     flat  |-> Flat,
     flaty |-> IF HasY THEN FlatY ELSE [none |-> 0],
+    aux   |-> Aux,
     parts |-> [t \in 1..NParts |-> Part(TableEls[t])] ]
 
 EmitInv == PrintT(ToJson(Out))
